@@ -1104,7 +1104,11 @@ class Executor:
                 if op is ast.NotEq:
                     return True
                 raise Unsupported("ordering comparison of a number with a non-number", node)
-            r = _CMPS[op](unlift(a), unlift(b))
+            try:
+                r = _CMPS[op](unlift(a), unlift(b))
+            except TypeError as ex:
+                # the program itself raises here (e.g. max() over a table that contains a string key)
+                raise PathAbort("TypeError", str(ex)) from ex
             if isinstance(r, numpy.ndarray):
                 return r
             return bool(r)
